@@ -127,8 +127,21 @@ package variants
 //@   ensures [c19.reported] implies(failed(w), len(sent(cErr)) >= 1 && len(sent(cWriteDone)) == 0)
 //@   ensures [c12.done] implies(!failed(w) && len(sent(cErr)) == 0, len(sent(cWriteDone)) == 1)
 
-//@ # C16: fifth copy of the scanner loop – safety sweep (no panic on any line sequence)
+//@ # C16: fifth copy of the scanner loop – safety sweep (no panic on any line sequence) and strictness: like the readers it
+//@ # refuses a non-IUPAC symbol in ANY sequence line it passes (ghost gBad: such a line has been read), returns the record
+//@ # named referenceID with Description = header without '>' and ID = its first field.
 //@ func findReference
+//@   ghost hdrs int = 0
+//@   ghost gBad bool = false
+//@   loop 1:
+//@     invariant hdrs >= 0 && first == (hdrs == 0)
+//@     invariant [strict] !gBad
+//@     invariant implies(refFound, id == referenceID) && implies(first, !refFound)
+//@   loop 2:
+//@     invariant hdrs >= 1 && len(encodedLine) == len(line) && forall(j, 0, range_i, coding[line[j]] != 0) && implies(refFound, id == referenceID)
+//@   after call:Bytes#1: do if len(line) > 0 && line[0] == '>' { hdrs++ } else { if hdrs > 0 && len(line) > 0 && exists(j, 0, len(line), coding[line[j]] == 0) { gBad = true } }
+//@   ensures [strict] implies(result2 == nil, !gBad)
+//@   ensures [found] implies(result2 == nil, result1.ID == referenceID)
 
 //@ # C04: coding / non-coding split of the genome
 //@ func gmin
